@@ -86,9 +86,14 @@ var c10ShutdownEntries = map[string]string{
 	"vaxis.(*Vaxis).Close": "full shutdown (Suspend, console close)",
 }
 
-// The ANY context exists only while this goroutine runs (premise of the statement:
-// "While the input goroutine runs, any number of goroutines may ...").
-const c10InputRoot = "vaxis.(*Vaxis).openTty$1"
+// The ANY context exists only while the input goroutine runs (premise of the statement:
+// "While the input goroutine runs, any number of goroutines may ..."). The input goroutine
+// is recognised by what it is, not by a name: the goroutine working on a Vaxis that
+// consumes the sequences of a parser stored in a Vaxis field.
+const (
+	c10InputObject = "vaxis.Vaxis"
+	c10ParserType  = "ansi.Parser"
+)
 
 // Mutexes under which unbounded blocking is part of the design, with the
 // condition that makes it safe (checked as an obligation of C10.b).
@@ -111,11 +116,8 @@ var c10ExternalBlocking = map[string]string{
 	"sync.Cond.Wait":          "condition wait",
 }
 
-// Exceptions of C10.b: (function, callee/op) pairs that block for a bounded time only.
-var c10BlockExceptions = map[string]string{
-	"widgets/term.(*Model).Close|os/exec.Cmd.Wait": "the child was sent SIGKILL on the line before; bounded by process teardown",
-	"ansi.(*Parser).print|bufio.Reader.ReadRune":   "only reached while p.r.Buffered() > 0: served from the buffer",
-}
+// Exceptions of C10.b are structural (see boundedExternal): a buffered read dominated by
+// `r.Buffered() > 0` on the same reader, and Cmd.Wait preceded on every path by Process.Kill.
 
 // Declared guards (C10.c): path prefix -> mutex. Used to decide which side of a
 // conflicting pair is the defect (the side that does not hold the declared guard).
@@ -208,6 +210,7 @@ func c10Join(a, b c10State) c10State {
 
 type c10Fn struct {
 	name   string
+	key    string // name used in obligation keys: goroutine roots are named by their role, not by the function
 	pkg    *packages.Package
 	info   *types.Info
 	fi     *FuncInfo
@@ -297,6 +300,7 @@ type c10CallRef struct {
 
 type c10Ctx struct {
 	name  string
+	input bool   // the input goroutine (premise of the statement)
 	kind  string // go timer MAIN ANY ctor
 	root  *c10Fn
 	multi bool
@@ -305,25 +309,26 @@ type c10Ctx struct {
 }
 
 type c10Eng struct {
-	c       *Ctx
-	p       *Program
-	fns     []*c10Fn
-	byObj   map[*types.Func]*c10Fn
-	byLit   map[*ast.FuncLit]*c10Fn
-	byName  map[string]*c10Fn
-	mux     c10Reg
-	ctxReg  c10Reg
-	ctxs    []*c10Ctx
-	callsTo map[*types.Func][]c10CallRef
-	fvals   map[*types.Var][]c10Val
-	named   []*types.Named
-	impl    map[*types.Func][]*c10Fn
-	atomW   map[*types.Func]string // atomic wrapper functions: "load" / "store"
-	selInfo map[*ast.SelectStmt][2]bool
-	debug   bool
-	mainBit c10Bits // MAIN and ctor contexts (same goroutine class)
-	tracked map[*types.Named]bool
-	owned   c10Bits // goroutine-owned flag pseudo-locks
+	c        *Ctx
+	p        *Program
+	fns      []*c10Fn
+	byObj    map[*types.Func]*c10Fn
+	byLit    map[*ast.FuncLit]*c10Fn
+	byName   map[string]*c10Fn
+	mux      c10Reg
+	ctxReg   c10Reg
+	ctxs     []*c10Ctx
+	callsTo  map[*types.Func][]c10CallRef
+	fvals    map[*types.Var][]c10Val
+	named    []*types.Named
+	impl     map[*types.Func][]*c10Fn
+	atomW    map[*types.Func]string // atomic wrapper functions: "load" / "store"
+	selInfo  map[*ast.SelectStmt][2]bool
+	debug    bool
+	mainBit  c10Bits // MAIN and ctor contexts (same goroutine class)
+	inputCtx int
+	tracked  map[*types.Named]bool
+	owned    c10Bits // goroutine-owned flag pseudo-locks
 }
 
 func (e *c10Eng) isFlag(name string) bool { return strings.HasPrefix(name, "flag:") }
@@ -513,6 +518,7 @@ func c10Build(c *Ctx) *c10Eng {
 	}
 	e.summaries()
 	e.contexts()
+	e.assignKeys()
 	e.laterSets()
 	e.flagHolders()
 	e.propagate(0)
@@ -1594,13 +1600,58 @@ func (e *c10Eng) summaries() {
 				}
 			case "call":
 				if why, ok := c10ExternalBlocking[s.ext]; ok && f.directBlock == "" {
-					if _, exc := c10BlockExceptions[f.name+"|"+s.ext]; !exc {
+					if e.boundedExternal(s) == "" {
 						f.directBlock = s.ext + " (" + why + ")"
 					}
 				}
 			}
 		}
 	}
+}
+
+// boundedExternal: is this potentially blocking external call bounded by its surroundings?
+// Returns the reason, or "".
+func (e *c10Eng) boundedExternal(s *c10Site) string {
+	f := s.fn
+	sel, ok := s.call.Fun.(*ast.SelectorExpr)
+	if !ok {
+		return ""
+	}
+	recv := types.ExprString(unparen(sel.X))
+	switch {
+	case strings.HasPrefix(s.ext, "bufio.Reader."):
+		// dominated by recv.Buffered() > 0
+		for _, gd := range f.g.Guards(s.loc) {
+			if gd.Cond.Tag != nil || gd.Cond.Alts != nil {
+				continue
+			}
+			for _, a := range condAtoms(f.info, gd.Cond, gd.Pol) {
+				if a.Kind == "lin" && a.A.ID == "" && a.K <= -1 && a.B.Disp == recv+".Buffered()" {
+					return "only reached while " + recv + ".Buffered() > 0: served from the buffer"
+				}
+				if a.Kind == "ne" && a.K == 0 && (a.A.Disp == recv+".Buffered()" && a.B.ID == "" || a.B.Disp == recv+".Buffered()" && a.A.ID == "") {
+					return "only reached while " + recv + ".Buffered() != 0: served from the buffer"
+				}
+			}
+		}
+	case s.ext == "os/exec.Cmd.Wait":
+		isKill := func(n ast.Node) bool {
+			c2, ok := n.(*ast.CallExpr)
+			if !ok {
+				return false
+			}
+			fn := calleeOf(f.info, c2)
+			if fn == nil || fullName(fn) != "os.Process.Kill" {
+				return false
+			}
+			s2, ok := c2.Fun.(*ast.SelectorExpr)
+			return ok && strings.HasPrefix(types.ExprString(unparen(s2.X)), recv+".")
+		}
+		if f.g.MustPrecede(isKill, s.loc) {
+			return "the child is sent SIGKILL on every path before the wait: bounded by process teardown"
+		}
+	}
+	return ""
 }
 
 func (e *c10Eng) newCtx(name, kind string, root *c10Fn, multi bool) int {
@@ -1616,21 +1667,62 @@ func (e *c10Eng) contexts() {
 	e.newCtx("MAIN", "MAIN", nil, false)
 	e.newCtx("ANY", "ANY", nil, true)
 	e.mainBit = 1 << 0
+	// goroutine and timer contexts, named by what they are: the object they work on (the struct
+	// type most of the root body's field accesses and lock operations are anchored at) and whether
+	// they consume a parser's sequences. The name does not depend on the root being a literal or a
+	// named method, nor on where the go statement sits.
+	e.inputCtx = -1
+	var spawnSites []*c10Site
 	for _, f := range e.fns {
 		for _, s := range f.sites {
-			if s.kind != "spawn" {
-				continue
-			}
-			if s.spawnFn == nil {
+			if s.kind == "spawn" {
 				s.ctx = -1
-				continue
+				if s.spawnFn != nil {
+					spawnSites = append(spawnSites, s)
+				}
 			}
-			kind, prefix := "go", "go:"
-			if s.desc == "time.AfterFunc" {
-				kind, prefix = "timer", "timer:"
+		}
+	}
+	sort.SliceStable(spawnSites, func(i, j int) bool {
+		a, b := spawnSites[i], spawnSites[j]
+		if a.fn.fi.Name != b.fn.fi.Name {
+			return a.fn.fi.Name < b.fn.fi.Name
+		}
+		return a.node.Pos() < b.node.Pos()
+	})
+	for _, s := range spawnSites {
+		kind, prefix := "go", "go:"
+		if s.desc == "time.AfterFunc" {
+			kind, prefix = "timer", "timer:"
+		}
+		obj := e.objectOf(s.spawnFn)
+		if obj == "" {
+			obj = "func " + s.fn.fi.Name
+		}
+		consumer := false
+		e.reach(s.spawnFn, func(g *c10Fn) {
+			for _, r := range g.sites {
+				if r.kind == "recv" && c10TypeOfPath(r.ch) == c10ParserType && strings.HasPrefix(r.chOwner, obj+".") {
+					consumer = true
+				}
 			}
-			s.ctx = e.newCtx(prefix+s.spawnFn.name, kind, s.spawnFn, false)
-			e.ctxs[s.ctx].site = s
+		})
+		name := prefix + obj
+		if consumer {
+			name += " (parser consumer)"
+		}
+		// the same root started from several places is one context; different roots with the same role are told apart
+		if e.ctxReg.has(name) && e.ctxs[e.ctxReg.idx[name]].root != s.spawnFn {
+			name += " @" + s.fn.fi.Name
+		}
+		s.ctx = e.newCtx(name, kind, s.spawnFn, false)
+		cx := e.ctxs[s.ctx]
+		if cx.site == nil {
+			cx.site = s
+		}
+		if kind == "go" && consumer && obj == c10InputObject {
+			cx.input = true
+			e.inputCtx = s.ctx
 		}
 	}
 	// constructors
@@ -1671,7 +1763,7 @@ func (e *c10Eng) contexts() {
 					}
 				}
 			}
-			if in := e.ctxReg.idx["go:"+c10InputRoot]; e.ctxReg.has("go:"+c10InputRoot) && f.spawns&(1<<uint(in)) != 0 {
+			if e.inputCtx >= 0 && f.spawns&(1<<uint(e.inputCtx)) != 0 {
 				f.spawns |= e.premiseBits() // premise of the statement: "While the input goroutine runs, ..."
 			}
 			if f.spawns != old {
@@ -1685,7 +1777,7 @@ func (e *c10Eng) contexts() {
 			case "spawn":
 				if s.ctx >= 0 {
 					s.spawnsB = 1<<uint(s.ctx) | s.spawnFn.spawns
-					if e.ctxs[s.ctx].root.name == c10InputRoot {
+					if e.ctxs[s.ctx].input {
 						s.spawnsB |= e.premiseBits()
 					}
 				}
@@ -1695,6 +1787,69 @@ func (e *c10Eng) contexts() {
 				}
 			}
 		}
+	}
+}
+
+// objectOf: the struct type a goroutine root works on: the type most of its own field accesses
+// and lock operations are anchored at (ties: alphabetical); for a method with no such access its receiver.
+func (e *c10Eng) objectOf(f *c10Fn) string {
+	count := map[string]int{}
+	for _, s := range f.sites {
+		switch s.kind {
+		case "access":
+			count[c10TypeOfPath(s.path)]++
+		case "lock", "unlock":
+			if !strings.HasPrefix(s.mutex, "local ") && !strings.HasPrefix(s.mutex, "global ") && !strings.HasPrefix(s.mutex, "unresolved") {
+				count[c10TypeOfPath(s.mutex)]++
+			}
+		case "send", "recv", "close":
+			if s.chKind == "field" && s.chOwner == "" {
+				count[c10TypeOfPath(s.ch)]++
+			}
+		}
+	}
+	best, bn := "", 0
+	for t, n := range count {
+		if n > bn || n == bn && t < best {
+			best, bn = t, n
+		}
+	}
+	if best == "" && f.lit == nil && f.fi.Decl.Recv != nil {
+		if n := c10NamedOf(f.fi.Obj.Type().(*types.Signature).Recv().Type()); n != nil {
+			best = c10TypeName(n)
+		}
+	}
+	return best
+}
+
+// assignKeys names every function for use in obligation keys. A goroutine or timer root is
+// named after its context, literals inside it after the root.
+func (e *c10Eng) assignKeys() {
+	rootOf := map[*c10Fn]string{}
+	for _, cx := range e.ctxs {
+		if (cx.kind == "go" || cx.kind == "timer") && cx.root != nil {
+			if _, ok := rootOf[cx.root]; !ok {
+				rootOf[cx.root] = "goroutine " + cx.name
+			}
+		}
+	}
+	var keyOf func(f *c10Fn) string
+	keyOf = func(f *c10Fn) string {
+		if f.key != "" {
+			return f.key
+		}
+		if k, ok := rootOf[f]; ok {
+			f.key = k
+		} else if f.lit != nil && f.parent != nil {
+			idx := strings.LastIndex(f.name, "$")
+			f.key = keyOf(f.parent) + f.name[idx:]
+		} else {
+			f.key = f.name
+		}
+		return f.key
+	}
+	for _, f := range e.fns {
+		keyOf(f)
 	}
 }
 
@@ -1856,7 +2011,7 @@ func (e *c10Eng) flagOfCall(f *c10Fn, x ast.Expr, kind string) string {
 func (e *c10Eng) goroutineFlags(sp *c10Site) c10Bits {
 	var bits c10Bits
 	lf := sp.spawnFn
-	if lf == nil || lf.lit == nil {
+	if lf == nil || lf.body == nil {
 		return 0
 	}
 	for _, st := range lf.body.List {
@@ -2100,8 +2255,8 @@ func runC10(c *Ctx) {
 			}
 		}
 	}
-	if !e.ctxReg.has("go:" + c10InputRoot) {
-		c.undecided("C10.c", "table/input goroutine", 0, "the input goroutine %s was not found: the premise of the statement (\"while the input goroutine runs\") cannot be applied", c10InputRoot)
+	if e.inputCtx < 0 {
+		c.undecided("C10.c", "table/input goroutine", 0, "no goroutine working on a %s consumes the sequences of a %s: the premise of the statement (\"while the input goroutine runs\") cannot be applied", c10InputObject, c10ParserType)
 	}
 	e.ruleLocks()
 	e.ruleBlocking()
@@ -2115,26 +2270,21 @@ func runC10(c *Ctx) {
 			fmt.Printf("  %-10s %s  [%s] %s\n", o.Status, o.Key, o.Pos, o.Reason)
 		}
 	}
-	// Minima confirmed by reading today's tree (41 Lock sites + 1 order edge; 20 function/mutex
-	// pairs; 103 blocking sites; 373 shared-field access classes; 7 goroutine/timer roots;
-	// 3 joins + 5 unbounded sends; 2 closes). widgets/term does not build for GOOS=windows.
-	if c.P.GOOS == "windows" {
-		c.expect("C10.a", 28)
-		c.expect("C10.g", 9)
-		c.expect("C10.b", 70)
-		c.expect("C10.c", 120)
-		c.expect("C10.d", 6)
-		c.expect("C10.e", 5)
-		c.expect("C10.f", 2)
-	} else {
-		c.expect("C10.a", 38)
-		c.expect("C10.g", 18)
-		c.expect("C10.b", 90)
-		c.expect("C10.c", 300)
-		c.expect("C10.d", 6)
-		c.expect("C10.e", 6)
-		c.expect("C10.f", 2)
-	}
+	// Minima are on what must exist for the statement to make sense, not on how the code is laid
+	// out (merging two critical sections or extracting a helper must not make a rule vacuous):
+	// the mutexes named by the property (Vaxis.mu, writer.mut, Parser.mu, + spinner) are each locked
+	// and released somewhere; the event queue, the sequence channel and the parser's close/closed
+	// handshake are blocking operations; the shared state of Vaxis, Parser and the spinner is accessed
+	// from more than one context; the parser, its Escape timer, the input loop, the spinner ticker and
+	// the two image encoders are goroutines; Suspend joins the parser; the sequence channel and the
+	// quit channel are closed.
+	c.expect("C10.a", 4)
+	c.expect("C10.g", 4)
+	c.expect("C10.b", 5)
+	c.expect("C10.c", 12)
+	c.expect("C10.d", 6)
+	c.expect("C10.e", 3)
+	c.expect("C10.f", 2)
 }
 
 func (e *c10Eng) dump() {
@@ -2219,7 +2369,7 @@ func (e *c10Eng) ruleLocks() {
 			if s.kind != "lock" {
 				continue
 			}
-			key := f.name + "/Lock " + s.mutex
+			key := f.key + "/Lock " + s.mutex
 			if strings.HasPrefix(s.mutex, "unresolved") {
 				c.undecided("C10.a", key, s.node.Pos(), "the mutex operand is not a struct field, a package-level or a local variable: %s", s.mutex)
 				continue
@@ -2299,7 +2449,7 @@ func (e *c10Eng) ruleLocks() {
 		}
 		for _, m := range order {
 			b := e.mux.bit(m)
-			key := f.name + "/" + m + " released on every path"
+			key := f.key + "/" + m + " released on every path"
 			var why []string
 			for _, p := range f.probs {
 				if p.mutex == m && !strings.Contains(p.what, "re-entrant") {
@@ -2329,7 +2479,52 @@ func (e *c10Eng) ruleLocks() {
 	}
 }
 
+// ---- aggregation: one obligation per semantic key (function names and site counts do not matter)
+
+type c10Agg struct {
+	rule  string
+	order []string
+	pos   map[string]token.Pos
+	bad   map[string]string
+	ok    map[string]string
+}
+
+func newC10Agg(rule string) *c10Agg {
+	return &c10Agg{rule: rule, pos: map[string]token.Pos{}, bad: map[string]string{}, ok: map[string]string{}}
+}
+
+func (a *c10Agg) add(key string, pos token.Pos, isBad bool, why string) {
+	if _, seen := a.pos[key]; !seen {
+		a.pos[key] = pos
+		a.order = append(a.order, key)
+	}
+	if isBad {
+		if a.bad[key] == "" {
+			a.bad[key] = why
+			a.pos[key] = pos
+		}
+	} else if a.ok[key] == "" {
+		a.ok[key] = why
+	}
+}
+
+func (a *c10Agg) flush(c *Ctx) {
+	sort.Strings(a.order)
+	for _, k := range a.order {
+		if w := a.bad[k]; w != "" {
+			c.bad(a.rule, k, a.pos[k], "%s", w)
+		} else {
+			c.ok(a.rule, k, a.pos[k], "%s", a.ok[k])
+		}
+	}
+}
+
 // ---- C10.b
+//
+// Keys name the blocking operation itself (kind + channel, or the external call, or the
+// callback's origin) and, for a violation, the mutex: "send vaxis.Vaxis.queue under vaxis.Vaxis.mu".
+// Which function performs the operation, through how many helpers, and how many call sites lead
+// to it does not change the key.
 
 func (e *c10Eng) ruleBlocking() {
 	c := e.c
@@ -2344,79 +2539,50 @@ func (e *c10Eng) ruleBlocking() {
 			blset |= e.mux.bit(n)
 		}
 	}
+	agg := newC10Agg("C10.b")
 	sentUnder := map[string]map[string]bool{} // allowed mutex -> channels sent on while holding it
 	for _, f := range e.fns {
 		for _, s := range f.sites {
-			var held c10Bits
-			what, pos := "", s.node.Pos()
-			key := ""
+			what := ""
 			switch {
 			case (s.kind == "send" || s.kind == "recv") && s.block == "unbounded":
-				held = s.st.may
 				what = s.desc
-				key = f.name + "/" + s.desc
-				if s.kind == "send" {
-					all := s.st.may
-					for _, cfg := range f.cfgList[1] {
-						all |= e.heldAt(s, cfg, 1)
-					}
-					for _, m := range e.mux.list(all & allowed) {
-						if sentUnder[m] == nil {
-							sentUnder[m] = map[string]bool{}
-						}
-						sentUnder[m][s.ch] = true
-					}
-				}
 			case s.kind == "call":
 				if why, ok := c10ExternalBlocking[s.ext]; ok {
-					if _, exc := c10BlockExceptions[f.name+"|"+s.ext]; exc {
-						c.ok("C10.b", f.name+"/"+s.ext, pos, "bounded: %s", c10BlockExceptions[f.name+"|"+s.ext])
+					if r := e.boundedExternal(s); r != "" {
+						agg.add(s.ext+" bounded", s.node.Pos(), false, "bounded: "+r)
 						continue
 					}
-					held = s.st.may
-					for _, cfg := range f.cfgList[1] {
-						held |= e.heldAt(s, cfg, 1)
-					}
 					what = s.ext + " (" + why + ")"
-					key = f.name + "/" + s.ext
-					break
+				} else if s.unknown != "" {
+					what = "application callback " + e.callbackOrigin(s)
 				}
-				blocking := ""
-				for _, t := range s.targets {
-					if t.directBlock != "" {
-						blocking = t.name + " (" + t.directBlock + ")"
-						break
-					}
-				}
-				if blocking == "" && s.unknown == "" {
-					continue
-				}
-				held = s.st.may
-				for _, cfg := range f.cfgList[1] {
-					held |= e.heldAt(s, cfg, 1)
-				}
-				if blocking != "" {
-					what = "call of " + blocking
-					key = f.name + "/calls " + c10Short(s.targets[0].name)
-					if len(s.targets) > 1 {
-						key = f.name + "/calls " + strings.TrimPrefix(strings.TrimPrefix(s.desc, "dynamic "), "interface ")
-					}
-				} else {
-					what = "application callback " + s.unknown
-					key = f.name + "/callback " + s.unknown
-				}
-			default:
+			}
+			if what == "" {
 				continue
 			}
-			held = e.realMutexes(held) & blset
-			if held != 0 {
-				c.bad("C10.b", key, pos, "%s while %s is held: every other user of the mutex waits until the operation completes (forever if it is never served)", what, strings.Join(e.mux.list(held), ", "))
-			} else {
-				c.ok("C10.b", key, pos, "no mutex held (locally or in any calling context)")
+			held := s.st.may
+			for _, cfg := range f.cfgList[1] {
+				held |= e.heldAt(s, cfg, 1)
+			}
+			held = e.realMutexes(held)
+			if s.kind == "send" {
+				for _, m := range e.mux.list(held & allowed) {
+					if sentUnder[m] == nil {
+						sentUnder[m] = map[string]bool{}
+					}
+					sentUnder[m][s.ch] = true
+				}
+			}
+			agg.add(what, s.node.Pos(), false, "no mutex held, locally or in any calling context (or only one under which blocking is part of the design)")
+			for _, m := range e.mux.list(held & blset) {
+				agg.add(what+" under "+m, s.node.Pos(), true, fmt.Sprintf("%s (in %s) while %s is held: every other user of the mutex waits until the operation completes (forever if it is never served)", what, f.key, m))
 			}
 		}
 	}
+	agg.flush(c)
 	// safety condition of the allowed mutexes
+	cond := newC10Agg("C10.b")
 	for _, m := range e.mux.list(allowed) {
 		var chans []string
 		for ch := range sentUnder[m] {
@@ -2436,15 +2602,78 @@ func (e *c10Eng) ruleBlocking() {
 				if s.kind != "lock" || s.mutex != m {
 					continue
 				}
-				key := f.name + "/Lock " + m + " not taken by a consumer"
-				if both := e.ctxSet(f, 1) & consumers; both != 0 {
-					c.bad("C10.b", key, s.node.Pos(), "%s is held across sends on %s, and context %s both receives from that channel and takes the mutex: the sender waits for the receiver, the receiver for the mutex", m, strings.Join(chans, ","), e.ctxNames(both))
-				} else {
-					c.ok("C10.b", key, s.node.Pos(), "%s; consumers of %s are %s", c10BlockingAllowed[m], strings.Join(chans, ","), e.ctxNames(consumers))
+				for _, cx := range e.ctxReg.list(e.ctxSet(f, 1)) {
+					key := m + " taken in " + cx + ", not a consumer of what is sent under it"
+					if consumers&e.ctxReg.bit(cx) != 0 {
+						cond.add(key, s.node.Pos(), true, fmt.Sprintf("%s is held across sends on %s, and context %s both receives from that channel and takes the mutex (%s): the sender waits for the receiver, the receiver for the mutex", m, strings.Join(chans, ","), cx, f.key))
+					} else {
+						cond.add(key, s.node.Pos(), false, fmt.Sprintf("%s; consumers of %s are %s", c10BlockingAllowed[m], strings.Join(chans, ","), e.ctxNames(consumers)))
+					}
 				}
 			}
 		}
 	}
+	cond.flush(c)
+}
+
+// callbackOrigin names where an application-supplied function value comes from.
+func (e *c10Eng) callbackOrigin(s *c10Site) string {
+	f := s.fn
+	var origin func(x ast.Expr, depth int) string
+	origin = func(x ast.Expr, depth int) string {
+		x = unparen(x)
+		switch t := x.(type) {
+		case *ast.SelectorExpr:
+			if root, names, _, ok := c10SelPath(f.info, t); ok {
+				return c10PathString(root, names)
+			}
+		case *ast.CallExpr:
+			// accessor returning a field
+			if fn := calleeOf(f.info, t); fn != nil {
+				if fi := e.p.FuncOfObj(fn); fi != nil && fi.Decl.Body != nil {
+					var ret ast.Expr
+					n := 0
+					ast.Inspect(fi.Decl.Body, func(m ast.Node) bool {
+						if rs, ok := m.(*ast.ReturnStmt); ok && len(rs.Results) == 1 {
+							ret = rs.Results[0]
+							n++
+						}
+						return true
+					})
+					if n == 1 {
+						if sel, ok := unparen(ret).(*ast.SelectorExpr); ok {
+							if root, names, _, ok := c10SelPath(fi.Pkg.TypesInfo, sel); ok {
+								return c10PathString(root, names)
+							}
+						}
+					}
+				}
+			}
+		case *ast.Ident:
+			// a local with a single definition: follow it
+			if depth < 3 {
+				obj := f.info.ObjectOf(t)
+				var rhs ast.Expr
+				n := 0
+				ast.Inspect(f.fi.Decl.Body, func(m ast.Node) bool {
+					if a, ok := m.(*ast.AssignStmt); ok && len(a.Lhs) == len(a.Rhs) {
+						for i, l := range a.Lhs {
+							if id, ok := l.(*ast.Ident); ok && f.info.ObjectOf(id) == obj {
+								rhs = a.Rhs[i]
+								n++
+							}
+						}
+					}
+					return true
+				})
+				if n == 1 {
+					return origin(rhs, depth+1)
+				}
+			}
+		}
+		return "(function value)"
+	}
+	return origin(s.call.Fun, 0)
 }
 
 // ---- C10.c
@@ -2640,7 +2869,11 @@ func (e *c10Eng) ruleGuardedBy() {
 			if a.s.atomic {
 				kind = "atomic " + kind
 			}
-			key := gname + "/" + a.s.fn.name + "/" + kind
+			cxn := e.ctxs[a.ctx].name
+			if e.ctxs[a.ctx].kind == "ctor" {
+				cxn = "MAIN"
+			}
+			key := gname + "/" + kind + " in " + cxn + " holding " + e.mux.str(a.held)
 			v := verdicts[key]
 			if v == nil {
 				v = &verdict{pos: a.s.node.Pos()}
@@ -2690,7 +2923,7 @@ func (e *c10Eng) ruleGuardedBy() {
 				bMain := kb == "MAIN" || kb == "ctor"
 				if aMain && !bMain {
 					if v.okWhy == "" {
-						v.okWhy = "owner side (application goroutine); the conflicting access is reported in " + partner.s.fn.name
+						v.okWhy = "owner side (application goroutine); the conflicting access is reported in " + partner.s.fn.key
 					}
 					continue
 				}
@@ -2699,8 +2932,8 @@ func (e *c10Eng) ruleGuardedBy() {
 			if partner.s.write {
 				pk = "write"
 			}
-			why := fmt.Sprintf("%s of %s in context %s holding %s is concurrent with the %s in %s (context %s, holding %s, %s): data race",
-				kind, a.s.path, e.ctxs[a.ctx].name, e.mux.str(a.held), pk, partner.s.fn.name, e.ctxs[partner.ctx].name, e.mux.str(partner.held), e.p.Pos(partner.s.node.Pos()))
+			why := fmt.Sprintf("%s of %s (in %s) in context %s holding %s is concurrent with the %s in %s (context %s, holding %s, %s): data race",
+				kind, a.s.path, a.s.fn.key, e.ctxs[a.ctx].name, e.mux.str(a.held), pk, partner.s.fn.key, e.ctxs[partner.ctx].name, e.mux.str(partner.held), e.p.Pos(partner.s.node.Pos()))
 			// attribute to an API entry that forgot the lock when the accessing function is lock-assuming elsewhere
 			if guard != "" && e.mux.has(guard) && a.root != nil && a.root != a.s.fn {
 				assuming := false
@@ -2744,6 +2977,7 @@ func (e *c10Eng) ruleGuardedBy() {
 	}
 	c.info("C10.c: %d shared field groups analysed, %d confined to one context or read-only", nShared, nConfined)
 	// shutdown entries called from library goroutines (their bodies are not re-analysed per context above)
+	shut := newC10Agg("C10.c")
 	for _, f := range e.fns {
 		for _, s := range f.sites {
 			if s.kind != "call" {
@@ -2760,7 +2994,6 @@ func (e *c10Eng) ruleGuardedBy() {
 						lib |= 1 << uint(cfg.ctx)
 					}
 				}
-				key := f.name + "/calls " + c10Short(t.name) + " on a library goroutine"
 				if lib == 0 {
 					continue
 				}
@@ -2779,10 +3012,13 @@ func (e *c10Eng) ruleGuardedBy() {
 				if len(w) > 6 {
 					w = append(w[:6], "…")
 				}
-				c.bad("C10.c", key, s.node.Pos(), "%s runs on %s concurrently with the application's goroutine (rendering, or its own Close): it writes %s without a common lock", why, e.ctxNames(lib), strings.Join(w, ", "))
+				for _, cx := range e.ctxReg.list(lib) {
+					shut.add("shutdown "+t.name+" runs on "+cx, s.node.Pos(), true, fmt.Sprintf("%s is called in %s and runs on %s concurrently with the application's goroutine (rendering, or its own Close): it writes %s without a common lock", why, f.key, cx, strings.Join(w, ", ")))
+				}
 			}
 		}
 	}
+	shut.flush(c)
 }
 
 // reach visits f and everything reachable from it through calls.
@@ -2832,7 +3068,7 @@ func (e *c10Eng) mayBlockDeep(f *c10Fn, seen map[*c10Fn]bool) string {
 	}
 	seen[f] = true
 	if f.directBlock != "" {
-		return f.name + ": " + f.directBlock
+		return f.directBlock
 	}
 	for _, s := range f.sites {
 		if s.kind == "call" {
@@ -2856,32 +3092,32 @@ func (e *c10Eng) ruleExit() {
 		f := cx.root
 		loops := e.infiniteLoops(f)
 		if len(loops) == 0 {
-			n := 0
+			oneShot := newC10Agg("C10.d")
 			for _, s := range f.sites {
-				desc, blocks := "", ""
+				blocks := ""
 				switch {
 				case (s.kind == "send" || s.kind == "recv") && s.block == "unbounded":
-					desc, blocks = s.desc, s.desc
+					blocks = s.desc
 				case s.kind == "call":
-					if _, ok := c10ExternalBlocking[s.ext]; ok {
-						desc, blocks = s.ext, s.ext
+					if _, ok := c10ExternalBlocking[s.ext]; ok && e.boundedExternal(s) == "" {
+						blocks = s.ext
 					}
 					for _, t := range s.targets {
 						if w := e.mayBlockDeep(t, map[*c10Fn]bool{}); w != "" {
-							desc, blocks = "calls "+c10Short(t.name), w
+							blocks = w
 							break
 						}
 					}
 				}
-				if desc == "" {
+				if blocks == "" {
 					continue
 				}
-				n++
-				c.bad("C10.d", cx.name+"/"+desc, s.node.Pos(), "the one-shot goroutine can block without bound in %s: if nobody serves that operation any more (after Close, or a full queue) the goroutine never exits", blocks)
+				oneShot.add(cx.name+"/blocks in "+blocks, s.node.Pos(), true, fmt.Sprintf("the one-shot goroutine can block without bound in %s: if nobody serves that operation any more (after Close, or a full queue) the goroutine never exits", blocks))
 			}
-			if n == 0 {
+			if len(oneShot.order) == 0 {
 				c.ok("C10.d", cx.name+"/terminates", f.pos(), "no loop and no unbounded blocking operation")
 			}
+			oneShot.flush(c)
 			continue
 		}
 		pm := par(f)
@@ -3043,6 +3279,7 @@ func (e *c10Eng) ruleWaitFor() {
 		return b
 	}
 	n := 0
+	jagg := newC10Agg("C10.e")
 	for _, j := range joins {
 		G := j.ctx
 		jt := c10TypeOfPath(j.ch)
@@ -3065,7 +3302,7 @@ func (e *c10Eng) ruleWaitFor() {
 						continue
 					}
 					n++
-					key := fmt.Sprintf("%s/%s joins %s of %s", f.name, e.ctxs[H].name, e.ctxs[G].name, owner)
+					key := fmt.Sprintf("%s joins %s of %s", e.ctxs[H].name, e.ctxs[G].name, owner)
 					bad := ""
 					for _, snd := range sendsBy[G] {
 						if snd.ch == j.ch || c10TypeOfPath(snd.ch) != jt {
@@ -3099,17 +3336,19 @@ func (e *c10Eng) ruleWaitFor() {
 						}
 					}
 					if bad != "" {
-						c.bad("C10.e", key, cs.node.Pos(), "%s", bad)
+						jagg.add(key, cs.node.Pos(), true, bad+" (the wait is reached from "+f.key+")")
 					} else {
-						c.ok("C10.e", key, cs.node.Pos(), "the waiting context does not drain anything the joined goroutine (or its consumer) can block on")
+						jagg.add(key, cs.node.Pos(), false, "the waiting context does not drain anything the joined goroutine (or its consumer) can block on")
 					}
 				}
 			}
 		}
 	}
+	jagg.flush(c)
 	if n == 0 {
 		c.okTrivial("C10.e", "no join", 0, "no context waits for a goroutine's completion signal")
 	}
+	sagg := newC10Agg("C10.e")
 	// self-drained sends
 	for _, f := range e.fns {
 		for _, s := range f.sites {
@@ -3121,7 +3360,7 @@ func (e *c10Eng) ruleWaitFor() {
 				continue
 			}
 			cs := e.normCtx(e.ctxSet(f, 1))
-			key := f.name + "/send " + s.ch + " has a drain outside its own goroutine"
+			key := "send " + s.ch + " has a drain outside its own goroutine"
 			self := -1
 			for g := range e.ctxs {
 				if cs&(1<<uint(g)) != 0 && !e.ctxs[g].multi && r == 1<<uint(g) {
@@ -3129,12 +3368,13 @@ func (e *c10Eng) ruleWaitFor() {
 				}
 			}
 			if self >= 0 {
-				c.bad("C10.e", key, s.node.Pos(), "the only receiver of %s is %s itself, which also performs this blocking send: once the buffer is full the goroutine waits for itself", s.ch, e.ctxs[self].name)
+				sagg.add(key, s.node.Pos(), true, fmt.Sprintf("the only receiver of %s is %s itself, which also performs this blocking send (in %s): once the buffer is full the goroutine waits for itself", s.ch, e.ctxs[self].name, f.key))
 			} else {
-				c.ok("C10.e", key, s.node.Pos(), "received by %s", e.ctxNames(r))
+				sagg.add(key, s.node.Pos(), false, "received by "+e.ctxNames(r))
 			}
 		}
 	}
+	sagg.flush(c)
 }
 
 // ---- C10.f
@@ -3170,15 +3410,24 @@ func (e *c10Eng) ruleDoubleClose() {
 				multi = true
 			}
 		}
-		for _, s := range byCh[ch] {
-			key := s.fn.name + "/close " + ch
-			switch {
-			case ctxs&(ctxs-1) == 0 && !multi && len(byCh[ch]) == 1:
-				c.ok("C10.f", key, s.node.Pos(), "the only close, reachable from %s only", e.ctxNames(ctxs))
-			case e.realMutexes(common) != 0:
-				c.ok("C10.f", key, s.node.Pos(), "every close of the channel runs under %s", e.mux.str(e.realMutexes(common)))
-			default:
-				c.bad("C10.f", key, s.node.Pos(), "close(%s) is reachable from contexts %s (%d close sites) with no lock in common: two goroutines can both pass the unsynchronised guard and the second close panics", ch, e.ctxNames(ctxs), len(byCh[ch]))
+		first := byCh[ch][0]
+		locked := e.realMutexes(common) != 0
+		key := "close " + ch + "/one closing context or a common lock"
+		switch {
+		case ctxs&(ctxs-1) == 0 && !multi:
+			c.ok("C10.f", key, first.node.Pos(), "closed from %s only", e.ctxNames(ctxs))
+		case locked:
+			c.ok("C10.f", key, first.node.Pos(), "every close of the channel runs under %s", e.mux.str(e.realMutexes(common)))
+		default:
+			c.bad("C10.f", key, first.node.Pos(), "close(%s) (in %s) is reachable from contexts %s with no lock in common: two goroutines can both pass the unsynchronised guard and the second close panics", ch, first.fn.key, e.ctxNames(ctxs))
+		}
+		if len(byCh[ch]) > 1 {
+			key := "close " + ch + "/several close statements share a lock"
+			second := byCh[ch][1]
+			if locked {
+				c.ok("C10.f", key, second.node.Pos(), "all %d close statements run under %s", len(byCh[ch]), e.mux.str(e.realMutexes(common)))
+			} else {
+				c.bad("C10.f", key, second.node.Pos(), "%s is closed at %d places (e.g. %s and %s) with no lock in common: when both run the second close panics", ch, len(byCh[ch]), first.fn.key, second.fn.key)
 			}
 		}
 	}
